@@ -68,6 +68,37 @@ pub fn drive(tr: &mut Tracer, rng: &mut StdRng, thorough: bool) {
             tr.emit(json!({"op": "with_scale_round", "a": a, "t": sc + dist as i64, "m": "Up"}));
         }
     }
+    // every small distance 0..45, downward and upward, through every entry point (machine-word fast paths for "few digits")
+    for dist in 0..=45usize {
+        for (k, len) in [1usize, 2, 9, 18, 19, 20, 21, 38, 39, 40].iter().enumerate() {
+            let sc = rng.gen_range(-4..=30i64);
+            let digits = match (dist + k) % 3 { 0 => format!("1{}5", "0".repeat(*len)), 1 => format!("{}", "9".repeat(*len + 1)), _ => shaped_digits(rng, *len + 1) };
+            let a = dec((dist + k) % 2 == 0, &digits, sc);
+            for t in [sc - dist as i64, sc + dist as i64] {
+                tr.emit(json!({"op": "with_scale", "form": "with_scale", "a": a, "t": t}));
+                tr.emit(json!({"op": "with_scale", "form": "to_owned_with_scale", "a": a, "t": t}));
+                tr.emit(json!({"op": "round", "a": a, "t": t}));
+                tr.emit(json!({"op": "with_scale_round", "a": a, "t": t, "m": MODES[(dist + k) % 7]}));
+                tr.emit(json!({"op": "with_scale_round", "a": a, "t": t, "m": MODES[(dist + k + 3) % 7]}));
+            }
+        }
+    }
+    // long numbers cut down to their first 0..12 digits: mantissas just above 1.0, just below 10, arbitrary
+    let lens: Vec<usize> = (21..=64usize).chain([99, 100, 101, 300, 301, 700]).chain(if thorough { vec![1500, 3000] } else { vec![] }).collect();
+    for len in lens {
+        for shape in 0..3 {
+            let digits = match shape { 0 => format!("10{}", rand_digits(rng, len - 2)), 1 => format!("99{}", rand_digits(rng, len - 2)), _ => shaped_digits(rng, len) };
+            let sc = rng.gen_range(-40..=(len as i64 + 5));
+            let a = dec(shape == 1, &digits, sc);
+            for keep in [0usize, 1, 2, 3, 5, 10, 12] {
+                let t = sc - (len as i64 - keep as i64);
+                tr.emit(json!({"op": "with_scale", "form": "with_scale", "a": a, "t": t}));
+                tr.emit(json!({"op": "with_scale", "form": "to_owned_with_scale", "a": a, "t": t}));
+                tr.emit(json!({"op": "with_scale_round", "a": a, "t": t, "m": "Down"}));
+                tr.emit(json!({"op": "with_scale_round", "a": a, "t": t, "m": MODES[(len + keep) % 7]}));
+            }
+        }
+    }
     // the digit-pair primitive: all 4200 arguments
     for m in MODES {
         for sign in [-1, 0, 1] {
